@@ -679,7 +679,8 @@ fn pattern_idents(pat: &[String], out: &mut Vec<String>) {
             break;
         }
     }
-    for (i, t) in pat[..end].iter().enumerate() {
+    let pat = &pat[..end];
+    for (i, t) in pat.iter().enumerate() {
         let c = t.chars().next().unwrap_or(' ');
         let is_field_label = pat.get(i + 1).map(|n| n == ":").unwrap_or(false);
         if (c.is_ascii_lowercase() || c == '_') && t != "mut" && t != "ref" && t != "_" && !is_field_label
@@ -755,7 +756,8 @@ fn tainted_idents(v: &[String]) -> Vec<String> {
                 if let Some(off) = v[i + 1..].iter().position(|t| t == "|") {
                     let pat = &v[i + 1..i + 1 + off];
                     let mut b = i;
-                    while b > 0 && v[b - 1] != ";" {
+                    // the receiver chain of the call the closure is passed to: back to the start of the expression
+                    while b > 0 && v[b - 1] != ";" && v[b - 1] != "=" && v[b - 1] != "{" && v[b - 1] != "}" {
                         b -= 1;
                     }
                     if mentions(&v[b..i], &tainted) {
